@@ -67,6 +67,9 @@ def item_xml(it, i, rnd, late_anchor):
     if k == "clip":
         return (f'<defs><clipPath id="cp{i}"><rect x="{q(x1)}" y="{q(y1)}" width="1" height="1"/></clipPath></defs>'
                 f'<rect x="{q(x1)}" y="{q(y1)}" width="{q(w)}" height="{q(h)}" clip-path="url(#cp{i})"/>'), ""
+    if k == "clipline":
+        return (f'<defs><clipPath id="cq{i}"><rect x="{q(x1)}" y="{q(y1)}" width="1" height="1"/></clipPath></defs>'
+                f'<line x1="{q(x1)}" y1="{q(y1)}" x2="{q(x2)}" y2="{q(y1)}" clip-path="url(#cq{i})"/>'), ""
     if k == "reuse":
         return f'<specs><rect id="rt{i}" x="{q(x1)}" y="{q(y1)}" width="{q(w)}" height="{q(h)}"/></specs><reuse href="#rt{i}" x="{q(x1 + 80)}" y="{q(y1 + 40)}"/>', ""
     if k in ("usex", "usey", "usexy"):
